@@ -25,7 +25,7 @@ from bounded import secretkeys
 
 NAME = 'C13/fresh-randomness'
 HASHES = ['SHA1', 'SHA256', 'SHA512']
-PWS = ['hunter2 ☃', b'octets\xff', 'same passphrase']
+PWS = ['hunter2 ☃', b'octets\xff', 'same passphrase', bytes(range(7, 47))]      # the last: 40 octets that look like key material (an API secret, a KDF output)
 EC = ['x25519', 'p256', 'p384', 'p521']
 PROTECT_KEY = 'eddsa+cv25519'
 _REAL = os.urandom
